@@ -4140,20 +4140,19 @@ def vy_filter(lhs: Any, rhs: Any, ctx):
     (any, any) -> Remove elements of a that are in b
     """
     ts = vy_type(lhs, rhs)
-    if ts[0] == types.FunctionType:
-        return LazyList(
-            filter(
-                lambda x: safe_apply(lhs, x, ctx=ctx),
-                iterable(rhs, range, ctx=ctx),
-            )
-        )
-    elif ts[1] == types.FunctionType:
-        return LazyList(
-            filter(
-                lambda x: safe_apply(rhs, x, ctx=ctx),
-                iterable(lhs, range, ctx=ctx),
-            )
-        )
+    if types.FunctionType in (ts[0], ts[1]):
+        function, itr = (lhs, rhs) if ts[0] == types.FunctionType else (rhs, lhs)
+        itr = iterable(itr, range, ctx=ctx)
+
+        # a generator (like vy_map): a StopIteration escaping the predicate
+        # is an error there, filter() would take it for the end of the list
+        @lazylist
+        def gen():
+            for element in itr:
+                if safe_apply(function, element, ctx=ctx):
+                    yield element
+
+        return gen()
     elif ts == (str, str):
         return "".join(elem for elem in lhs if elem not in rhs)
     return LazyList(elem for elem in lhs if elem not in rhs)
